@@ -107,7 +107,7 @@ NAME_OK = re.compile(r'^[A-Za-z][A-Za-z0-9]*$')
 VALUE_OK = re.compile(r'^[A-Za-z0-9 .:,+/-]*$')
 
 
-def valid_file(file):
+def valid_file(file, allow_overlap=False):
     if not isinstance(file, list):
         return False
     for e in file:
@@ -115,8 +115,11 @@ def valid_file(file):
             return False
         if not KEY_OK.match(e['key']) or not NAME_OK.match(e['type']) or e['type'].lower() in ('string', 'preamble', 'comment'):
             return False
-        names = [n.lower() for n, _ in e['fields']] + [r.lower() for r, _ in e['persons']]
-        if len(set(names)) != len(names):
+        fnames = [n.lower() for n, _ in e['fields']]
+        rnames = [r.lower() for r, _ in e['persons']]
+        if len(set(fnames)) != len(fnames) or len(set(rnames)) != len(rnames):
+            return False
+        if not allow_overlap and set(fnames) & set(rnames):
             return False
         for n, v in e['fields']:
             if not NAME_OK.match(n) or not VALUE_OK.match(v) or v != ' '.join(v.split()) or not v:
